@@ -918,7 +918,14 @@ class Gen:
             made = []
             kinds = rng.sample(["SecretInteger", "PublicInteger", "SecretUnsignedInteger", "PublicUnsignedInteger"], 2)
             for Ti in kinds:
-                def body(ps):
+                cap = self.new_input(Ti)
+                use_param = rng.random() < 0.5
+
+                def body(ps, cap=cap, use_param=use_param):
+                    if not use_param:
+                        # the result does not depend on the parameter: its declared type is still part of the signature
+                        self.do({"op": "bin", "bop": "add", "a": cap, "b": cap})
+                        return self.last()
                     self.do({"op": "innerProduct", "a": ps[0], "b": ps[0]})
                     return self.last()
                 self.define_fn(anns=[["Array", Ti]], ret=Ti, plan=body)
@@ -955,8 +962,16 @@ class Gen:
             for a, b in rng.sample([(x2, x2), (x2, y2), (y2, x2), (y2, y2)], 3):
                 self.do({"op": "zip", "a": a, "b": b})
                 made.append(self.last())
+            # input arrays of arrays built with the legacy constructor: same outer size, rows of different sizes / secrecy
+            nested = []
+            for t, inner in rng.sample([(Ti, 7), (Ti, 2), (Tj, 2), (Tj, 7)], 3):
+                row = arr_of(t, inner)
+                self.do({"op": "arrayOf", "r": row, "size": 4})
+                if self.m.regs[self.last()] is not DEAD:
+                    nested.append(self.last())
             made = [r for r in made if self.m.regs[r] is not DEAD]
-            self.compile_now(prefer=made[:4])
+            self.compile_now(prefer=(nested + made)[:4])
+            self.compile_now(prefer=(made + nested)[:4])
             self.compile_now(prefer=made[2:6])
             return None
         if k == "nestedacc":
